@@ -28,8 +28,8 @@ def run(ctx: core.Ctx):
         'eviction state is observed through the cache object (membership, currsize) only to label cases and to decide '
         'whether an in-memory refusal was due',
     ]
-    core.run_machine(ctx, C07Machine, max_examples=ctx.n(30, 250), steps=40)
-    core.run_given(ctx, plan_strategy(), lambda p: run_plan(C07Machine, ctx, p), ctx.n(50, 300), salt=20)
+    core.run_machine(ctx, C07Machine, max_examples=ctx.n(25, 250), steps=40)
+    core.run_given(ctx, plan_strategy(), lambda p: run_plan(C07Machine, ctx, p), ctx.n(35, 300), salt=20)
 
 
 def replay(ctx: core.Ctx, case):
